@@ -230,6 +230,18 @@ func genC13(e *emitter, tier string) {
 			}
 		}
 	}
+	// extra tensors whose names coincide with tensors the model computes (intermediate and output names),
+	// with a declared input a node rewrites, and with fresh names: extras never decide acceptance
+	{
+		g := &GraphJ{Inputs: []VInfoJ{{Name: "x", Dt: "f32", Dims: []any{"N", 2}}},
+			Nodes:   []NodeJ{{Op: "Relu", Ins: []string{"x"}, Outs: []string{"hidden"}}, {Op: "Abs", Ins: []string{"hidden"}, Outs: []string{"y"}}},
+			Outputs: []string{"y"}}
+		for _, extra := range []string{"hidden", "y", "fresh", "", "x2"} {
+			for _, xs := range [][]int{{3, 2}, {3, 3}, {2}} {
+				e.emit(validateCase("extra-named-like-computed", g, []SupJ{{"x", xs}, {extra, []int{3, 2}}}))
+			}
+		}
+	}
 	// multi-input signatures, initializer shadowing, extra and permuted names (random, structured)
 	for k := 0; k < nrand; k++ {
 		n := 1 + e.rng.Intn(3)
